@@ -347,7 +347,7 @@ fn run_check(id: &str, tier: &str) -> i32 {
         println!("MACHINERY-ERROR cannot write evidence: {e}");
         exit = 2;
     }
-    let execs: u64 = results.iter().map(|r| r.executions).sum();
+    let execs: u64 = results.iter().map(|r| r.executions).sum::<u64>() + extra.as_ref().map_or(0, |e| e.traces);
     println!(
         "{} {}: {} executions, {} violations ({} distinct classes, {} known), {:.1}s -> exit {}",
         check.id,
